@@ -79,6 +79,20 @@ def gen(rng, tier):
         # z = x = y
         yield grp("ref", [zero(0, prec=x.prec, mode=x.mode), x, clone(x)], "%s 0 1 2" % op, 0, "z=x=y")
         yield grp("alias", [clone(x)], "%s 0 0 0" % op, 0, "z=x=y")
+    for _ in range(6 * n):
+        gid += 1
+        wy = rng.choice([100, 101, 110, 128])
+        wx = wy + rng.choice([30, 50, 64, wy // 2, wy])
+        cy = int("".join(rng.choice(["9" * 19, "%019d" % rng.randrange(B), "0" * 19]) for _ in range(wy)).lstrip("0") or "7")
+        cx = int("".join(rng.choice(["9" * 19, "%019d" % rng.randrange(B)]) for _ in range(wx)).lstrip("0") or "3")
+        x, y = fin(cx, rng.randint(-9, 9), neg=rng.randint(0, 1)), fin(cy, rng.randint(-9, 9), neg=rng.randint(0, 1))
+        p, md = 19 * rng.choice([wx - wy + 2, 105, 60]), rng.randint(0, 5)
+        op = rng.choice(["Quo", "Quo", "Mul"])
+        big_p = 19 * (p // 19 + 3)
+        stale = fin(int("".join("%019d" % rng.randrange(B // 10, B) for _ in range(big_p // 19))), 0, prec=big_p, mode=md)
+        yield dict(family="long-" + op, group="%d-long" % gid, resvar=0, vars=[zero(0, prec=p, mode=md), x, y], ops=["SetPrec 0 %d" % p, "%s 0 1 2" % op], big=True)
+        yield dict(family="long-" + op, group="%d-long" % gid, resvar=0, vars=[stale, x, y], ops=["SetPrec 0 %d" % p, "%s 0 1 2" % op], big=True)
+        yield dict(family="long-" + op, group="%d-long" % gid, resvar=0, vars=[clone(stale), x, y], ops=["SetInf 0 0", "SetPrec 0 %d" % p, "%s 0 1 2" % op], big=True)
     for _ in range(80 * n):
         gid += 1
         x, y, u = (common.rand_any(rng, 30, wide=False) if rng.randint(0, 6) == 0 else common.rand_fin(rng, 30, wide=False) for _ in range(3))
